@@ -1,7 +1,7 @@
 (* C10 — unicast delivery, bounded forwarding, content preservation.  Property theorems only;
    proofs in ForwardProofs.v.  A frame is the record of the fields forwarding reads plus ff_rest,
    which stands for every byte outside TTL, flow flags and switch block. *)
-From Verif Require Import Prelude Gen SwitchLabel SwitchLabelProofs Table Control Forward ForwardProofs.
+From Verif Require Import Prelude Gen SwitchLabel SwitchLabelProofs Table Control Forward ForwardProofs Translated.
 
 (* Tie to the code: ReduceTTL(1) as tabulated from the compiled code over all 256 TTL values,
    the TTL of a freshly built frame, and the message types that are handled as hop pings. *)
@@ -96,3 +96,23 @@ Example C10_nonvacuous :
   deliver_from_origin net rlink (fun _ _ => 4) 5 a f = Some (b, mkFF 30 4 Gen.mt_router_ping a b [] 77) /\
   crossings_from_origin net rlink (fun _ _ => 4) 9 a f = 2%nat.
 Proof. vm_compute. split; reflexivity. Qed.
+
+(* ---------- the translated source (Translated.v) ----------
+   FrameV1.TTL / SetTTL / ReduceTTL are translated from frame/frame_v1.go on every run (the TTL is
+   the byte at position 1): ReduceTTL saturates at zero for every amount, and ReduceTTL(1) is the
+   forwarding model's rule for every TTL byte. *)
+Theorem C10_source_reduce_ttl_saturates : forall ttl by_, ttl < 256 -> by_ < 256 ->
+  Gen.go_FrameV1_ReduceTTL ttl by_ = if by_ <? ttl then ttl - by_ else 0.
+Proof. exact go_reduce_ttl_saturates. Qed.
+Print Assumptions C10_source_reduce_ttl_saturates.
+
+Theorem C10_source_reduce_ttl_is_model : forall ttl, ttl < 256 -> Gen.go_FrameV1_ReduceTTL ttl 1 = reduce_ttl ttl.
+Proof. exact go_reduce_ttl_is_model. Qed.
+Print Assumptions C10_source_reduce_ttl_is_model.
+
+(* flow-control flags (byte 2): setting one makes it readable and clears no other *)
+Theorem C10_source_flow_flags : forall fc flag,
+  Gen.go_FrameV1_HasFlowFlag (Gen.go_FrameV1_SetFlowFlag fc flag) flag = true /\
+  (forall other, Gen.go_FrameV1_HasFlowFlag fc other = true -> Gen.go_FrameV1_HasFlowFlag (Gen.go_FrameV1_SetFlowFlag fc flag) other = true).
+Proof. exact go_flow_flags. Qed.
+Print Assumptions C10_source_flow_flags.
